@@ -22,3 +22,5 @@ def run(ctx):
     immut.im7(ctx)
     immut.im8(ctx)
     immut.im9(ctx)
+    immut.im11(ctx)
+    immut.im12(ctx)
